@@ -7,6 +7,7 @@ CONSTANTS
   AsmForms = TRUE
   AsmFirst = FALSE
   Kinds = {"obj", "func"}
+  Family = "all"
   DevsOn = {"ThreadNoTentative", "ThreadMismatchNotDiagnosed", "InlineLateExternal", "NoUsedInternalUndefDiag"}
   OkPrefix = FALSE
   SampleMod = 1
